@@ -51,5 +51,9 @@ func (s *C12Service) GetIPInfo(ctx context.Context, r *rpc.GetInfoRequest) (*rpc
 	return s.ns.GetIPInfo(ctx, r)
 }
 
+func (s *C12Service) ReleaseIP(ctx context.Context, r *rpc.ReleaseIPRequest) (*rpc.ReleaseIPReply, error) {
+	return s.ns.ReleaseIP(ctx, r)
+}
+
 // C12DefaultForNetConf forwards to defaultForNetConf.
 func C12DefaultForNetConf(netConf []*rpc.NetConf) error { return defaultForNetConf(netConf) }
